@@ -91,14 +91,28 @@ def snapshot(ad: Adapter, m, rev=False):
     costs = {}
     grads = {}
     params = [p for p in m.nas_parameters() if p.requires_grad]
+    errors = []
     for name in (list(ad.specs)[::-1] if rev else list(ad.specs)):
-        c = m.get_cost(name)
-        costs[name] = float(c)
+        # a cost that cannot be read or differentiated any more is an observation too (an
+        # exception here must become a discrepancy of the history, not a harness error)
+        try:
+            c = m.get_cost(name)
+            costs[name] = float(c)
+        except Exception as e:  # noqa
+            costs[name] = f"raised:{type(e).__name__}"
+            grads[name] = 'no-grad'
+            errors.append(f"cost-read:raised:{type(e).__name__}: {str(e)[:160]}")
+            continue
         if c.requires_grad and params:
-            g = torch.autograd.grad(c, params, allow_unused=True, retain_graph=True)
-            grads[name] = [None if t is None else t.clone() for t in g]
+            try:
+                g = torch.autograd.grad(c, params, allow_unused=True, retain_graph=True)
+                grads[name] = [None if t is None else t.clone() for t in g]
+            except Exception as e:  # noqa
+                grads[name] = f"raised:{type(e).__name__}"
+                errors.append(f"cost-gradient:raised:{type(e).__name__}: {str(e)[:160]}")
         else:
             grads[name] = 'no-grad'
+    snap['errors'] = errors
     snap['costs'] = costs
     snap['cost_grads'] = grads
     snap['summary'] = repr(m.summary())
@@ -196,6 +210,12 @@ def run_history(ad: Adapter, ops, res: Result):
             torch.manual_seed(999)
             ng.call(m, ad.probe(seed=9))
     base = snapshot(ad, A)
+    if base['errors']:
+        # the snapshot itself reads every metric and its gradient once: if that already fails the
+        # model cannot be observed at all
+        res.bad('cost-is-not-an-observer:' + base['errors'][0].split(': ')[0],
+                after_ops=[], message=base['errors'][0])
+        return 0
     last_export = None
     n_obs = 0
     for k, op in enumerate(ops):
@@ -251,7 +271,8 @@ def run_history(ad: Adapter, ops, res: Result):
             if c is not None and c.requires_grad:
                 params = [p for p in A.nas_parameters() if p.requires_grad]
                 if params:
-                    torch.autograd.grad(c, params, allow_unused=True, retain_graph=True)
+                    must(res, 'cost-gradient', torch.autograd.grad, c, params, allow_unused=True,
+                         retain_graph=True)
         elif op == 'swap_spec':
             A.cost_specification = dict(ad.alt)
             swapped = {n: must(res, 'cost', A.get_cost, n) for n in ad.alt}
@@ -273,6 +294,10 @@ def run_history(ad: Adapter, ops, res: Result):
                 finally:
                     ad.specs = main
         now = snapshot(ad, A, rev=True)
+        if now['errors'] and not base['errors']:
+            res.bad(f"{op}-is-not-an-observer:" + now['errors'][0].split(': ')[0],
+                    after_ops=ops[:k + 1], message=now['errors'][0])
+            return n_obs
         d = snap_diff(base, now)
         if d is not None:
             res.bad(f"{op}-is-not-an-observer:{d[0]}", after_ops=ops[:k + 1], **d[1])
